@@ -1183,7 +1183,7 @@ theorem aRightWeights_eq : ∀ (axes : List Axis) (x : List Rat) (b : List Int),
     rw [this]
 
 theorem axis_switch (a : Axis) (x : Rat) (hn : 2 ≤ a.npt) (hlh : a.low < a.high)
-    (hx : a.low ≤ x) (hx2 : x ≤ a.high) :
+    (_hx : a.low ≤ x) (hx2 : x ≤ a.high) :
     a.base x = ((x - a.low) / a.h).floor ∨
     (a.rightWeight x (a.base x) = 1 ∧ a.rightWeight x ((x - a.low) / a.h).floor = 0 ∧
       ((x - a.low) / a.h).floor = a.base x + 1 ∧ x = a.high) := by
